@@ -84,6 +84,39 @@ def run(tier, replay=None):
             c["shells"] = [c["shells"][1], c["shells"][0]]
         for R in cyc:
             base.append((c, "near-axis cyclic permutation", R, [0.0, 0.0, 0.0]))
+    # exact special positions: all three centres in one coordinate plane (one relative coordinate EXACTLY zero, dyadic numbers) with the shells
+    # in each of the four quadrants of that plane, and collinear arrangements along each axis on either side of the ECP; mapped onto the
+    # other planes / half-axes by reflections and cyclic permutations (atan2 on the branch cut, sin(theta) = 0, exact zeros in the shifts)
+    refl = [[[-1.0, 0, 0], [0, 1.0, 0], [0, 0, 1.0]], [[1.0, 0, 0], [0, -1.0, 0], [0, 0, 1.0]], [[1.0, 0, 0], [0, 1.0, 0], [0, 0, -1.0]]]
+    dy = lambda lo, hi: round(rng.uniform(lo, hi) * 64) / 64.0
+    nsp = 0
+    for plane in range(3):                       # the coordinate that is exactly zero
+        for q in range(4 if tier == "quick" else 8):
+            s1 = 1.0 if q % 2 == 0 else -1.0; s2 = 1.0 if (q // 2) % 2 == 0 else -1.0
+            C = [dy(-1, 1) for _ in range(3)]
+            u, v = [i for i in range(3) if i != plane]
+            A = list(C); B = list(C)
+            A[u] += s1 * dy(0.5, 2.0); A[v] += dy(-1.5, 1.5)
+            B[u] += s2 * dy(0.5, 2.0); B[v] += dy(-1.5, 1.5)
+            if q >= 4:                           # collinear along axis u
+                A[v] = C[v]; B[v] = C[v]
+            LA, LB, L = rng.randint(0, 2), rng.randint(0, 2), rng.randint(0, 2)
+            c = {"id": "x", "extra": {"geom": "exact-plane-%d" % plane, "order": 1, "deriv": 1},
+                 "shells": [gen.rand_shell(rng, LA, A, nprim=rng.randint(1, 2), emin=0.5, emax=3.0), gen.rand_shell(rng, LB, B, nprim=rng.randint(1, 2), emin=0.5, emax=3.0)],
+                 "ecps": [gen.rand_ecp(rng, L, C, nper=(1, 1), amin=0.5, amax=3.0)]}
+            for R in refl + cyc:
+                base.append((c, "exact special position", R, [0.0, 0.0, 0.0])); nsp += 1
+    for axis in range(3):                        # collinear, ECP between the shells / outside
+        for q in range(2 if tier == "quick" else 4):
+            C = [dy(-1, 1) for _ in range(3)]
+            A = list(C); B = list(C)
+            A[axis] += -dy(0.5, 2.0); B[axis] += dy(0.5, 2.0) if q % 2 == 0 else -dy(2.1, 3.0)
+            c = {"id": "x", "extra": {"geom": "exact-axis-%d" % axis, "order": 1, "deriv": 1},
+                 "shells": [gen.rand_shell(rng, rng.randint(0, 2), A, nprim=2, emin=0.5, emax=3.0), gen.rand_shell(rng, rng.randint(0, 2), B, nprim=2, emin=0.5, emax=3.0)],
+                 "ecps": [gen.rand_ecp(rng, rng.randint(0, 2), C, nper=(1, 1), amin=0.5, amax=3.0)]}
+            for R in refl + cyc:
+                base.append((c, "exact special position", R, [0.0, 0.0, 0.0])); nsp += 1
+    res.cov["exact_special_position_cases"] = nsp
     # quick: make sure all 48 signed permutations occur at least once
     if tier == "quick":
         seen = set()
